@@ -34,6 +34,8 @@ KF_F34 = "C01:transform:enum/const/example-literals-rewritten-as-if-they-were-sc
 KF_F35 = "C01:_handle_literal_or_in_quantifier:invalid-quantifier-InternalError-when-minLength>maxLength"
 KF_F36 = "C01:_distribute_length_constraints:zero-remaining-maxLength-treated-as-unbounded"
 KF_F38 = "C01:_find_quantified_end:lazy-or-possessive-suffix-cut-off-in-multi-part-pattern"
+KF_F38B = "C01:_find_quantified_end:escaped-quantifier-character-taken-for-a-quantifier-in-multi-part-pattern"
+KF_F38C = "C01:_handle_anchored_pattern:non-capturing-group-text-out-of-step-with-parse-tree"
 
 
 # ---- canonical forms ----------------------------------------------------------------------------------------------
@@ -274,8 +276,9 @@ def pattern_signature(p, lo=None, hi=None):
         parsed = list(sre_parse.parse(p))
     except Exception:  # noqa: BLE001
         return "C01:update_quantifier:invalid-pattern-rewritten"
-    if lazy_multi(p):
-        return KF_F38
+    cause = text_divergence(p)
+    if cause:
+        return cause
     if not both_anchored(p):
         return KF_F5
     body = parsed[1:-1]
@@ -291,15 +294,24 @@ def pattern_signature(p, lo=None, hi=None):
     return "C01:update_quantifier:anchored-width-1-pattern-merge-unsound"
 
 
-def lazy_multi(p):
-    """a multi-part pattern with a lazy / possessive repeat: `_find_quantified_end` cuts the segment before the `?`/`+`
-    suffix, the text-level rewrite goes astray (outside the tree model)"""
+def text_divergence(p):
+    """multi-part anchored patterns whose *text* `_handle_anchored_pattern` scans out of step with the parse tree
+    (outside the tree model; each cause is a recorded finding with its own witness): a lazy/possessive suffix, an
+    escaped quantifier character that is itself quantified, a non-capturing group"""
     try:
         sre, sre_parse = _sre()
         parsed = list(sre_parse.parse(p))
     except Exception:  # noqa: BLE001
-        return False
-    return len(parsed) > 3 and any(op in (sre.MIN_REPEAT, getattr(sre, "POSSESSIVE_REPEAT", object())) for op, _ in parsed)
+        return None
+    if len(parsed) <= 3:
+        return None
+    if any(op in (sre.MIN_REPEAT, getattr(sre, "POSSESSIVE_REPEAT", object())) for op, _ in parsed):
+        return KF_F38
+    if re.search(r"\\[+*?{}()\[\]][+*?{]", p):
+        return KF_F38B
+    if "(?:" in p:
+        return KF_F38C
+    return None
 
 
 def conv_round(chk, drv, items, mechanism):
@@ -479,16 +491,16 @@ def regex_round(chk, drv, cases, mechanism):
         chk.case(mechanism, key=[p, lo, hi], nontrivial=changed or isinstance(impl, dict),
                  sample={"pattern": p, "minLength": lo, "maxLength": hi, "impl": impl})
         chk.feature(f"{mechanism}:{'rewritten' if changed else ('error' if isinstance(impl, dict) else 'unchanged')}")
-        if lazy_multi(p):
-            chk.feature(f"{mechanism}:lazy-multi-part(outside-the-tree-model)")
+        if text_divergence(p):
+            chk.feature(f"{mechanism}:text-divergent-multi-part(outside-the-tree-model)")
         elif m != impl_tree:
             chk.disagreement(mechanism, {"pattern": p, "minLength": lo, "maxLength": hi}, m, {"text": impl, "tree": impl_tree})
         # replay: the rewritten pattern (which replaces pattern + length keywords) must not admit a string the original
         # constraints reject; judged by Python's `re` on a fixed string pool
         if isinstance(impl, dict):
             if impl["error"] == "InternalError":
-                chk.violation(KF_F35 if (lo is not None and hi is not None and lo > hi) else
-                              "C01:update_quantifier:raises-InternalError",
+                chk.violation(text_divergence(p) or (KF_F35 if (lo is not None and hi is not None and lo > hi) else
+                                                       "C01:update_quantifier:raises-InternalError"),
                               "update_quantifier raises InternalError", {"pattern": p, "minLength": lo, "maxLength": hi})
             else:
                 chk.violation(f"C01:update_quantifier:raises-{impl['error']}", f"update_quantifier raises {impl['error']}",
@@ -590,7 +602,7 @@ def run(chk):
     conv_round(chk, drv, wit, "witness")
     conv_round(chk, drv, gen_conv_items(chk, chk.budget(1200, 12000)), "conv")
     conv_round(chk, drv, gen_conv_items(chk, chk.budget(150, 1500), spice=0.5), "conv-spiced")
-    regex_round(chk, drv, [("^[0-9]{1,3}?a{1,3}\\+{1,3}?\\Z", 3, 3), ("^a[0-9]*$", None, 1), ("^(ab)+$", None, 3),
+    regex_round(chk, drv, [("^[0-9]{1,3}?a{1,3}\\+{1,3}?\\Z", 3, 3), ("^\\+?b+(?:ab)\\Z", 2, None), ("^(?:ab)[0-9]+$", None, 4), ("^a[0-9]*$", None, 1), ("^(ab)+$", None, 3),
                            ("[a-z]", None, 3), ("^a$", None, 3), ("[ab]", 3, 1)], "regex-witness")
     ex = exhaustive_regex_cases(chk)
     regex_round(chk, drv, ex, "regex-exhaustive")
